@@ -96,10 +96,9 @@ def build(text, quals, tracking=None, index=0):
 @ob(
     "C14",
     "O2-step",
-    pre=["cur is None or {LO} <= cur <= {HI}", "y is None or {LO} <= y <= {HI}",
-         "not (increase and decrease)"],
+    pre=["cur is None or {LO} <= cur <= {HI}", "y is None or {LO} <= y <= {HI}"],
     post="_ == step_oracle(onmatch, latch, onchange, increase, decrease, notnone, asbool, nocontrib, cur, y, m)",
-    bound="all qualifier subsets (8 symbolic bools; increase+decrease together excluded as contradictory), pre-state cur and new "
+    bound="all qualifier subsets (8 symbolic bools; increase and decrease together: both guards apply), pre-state cur and new "
     "value y symbolic Optional[int] LO..HI, rest-of-line m symbolic; one real _consider_line; observed: x afterwards and whether "
     "the line matched (= vote and m)",
     outside="string-valued y; the vote when the rest of the line does not match (not observable from the line result)",
